@@ -7,7 +7,7 @@
            owned annotation sets are neither seeds nor atomic, bound-attribute names are immutable
            values, attribute names are immutable values); evaluated on every dumped case *)
 From Coq Require Import ZArith List Bool.
-From DV Require Import Model.PyPrims Model.C12Model Proofs.C12Proofs Proofs.C12Examples.
+From DV Require Import Model.PyPrims Model.C12Model Proofs.C12Proofs Proofs.C12IsoTop Proofs.C12Examples.
 Import ListNotations.
 Open Scope Z_scope.
 
@@ -19,13 +19,10 @@ Theorem deepcopy_fuel_suffices : forall h seeds root fuel,
 Proof. exact deepcopy_fuel_suffices_l. Qed.
 Print Assumptions deepcopy_fuel_suffices.
 
-(* Full statement aimed at (deepcopy_iso_disjoint): the result heap extends the old one, every object
-   reachable from the copy is fresh except what the seeds / atomic objects reach, AND memo is a graph
-   isomorphism from reach h root onto reach h' root'.
-   Proved here: extension (old objects untouched) + freshness/disjointness.  Missing: the isomorphism
-   (equality of content); it is covered by the correspondence run (iso_check) and by content_* below
-   where proved. *)
-Theorem deepcopy_iso_disjoint_partial : forall h seeds root fuel s' y,
+(* deepcopy_iso_disjoint, part 1: the result heap extends the old one (old objects untouched) and every
+   object reachable from the copy is fresh except what the seeds / atomic objects reach.
+   (part 2, equality of content, is deepcopy_content_bisimulation below.) *)
+Theorem deepcopy_extends_and_fresh : forall h seeds root fuel s' y,
   wf_heap h seeds = true -> 0 <= root < hlen h -> (length h < fuel)%nat ->
   run_seeded fuel h seeds root = Ok (s', R y) ->
   (forall o, o < hlen h -> hget (sh s') o = hget h o)
@@ -33,7 +30,42 @@ Theorem deepcopy_iso_disjoint_partial : forall h seeds root fuel s' y,
   /\ (forall o, reach (sh s') y o ->
         hlen h <= o < hlen (sh s') \/ exists b, (In b seeds \/ is_atomic h b = true) /\ reach h b o).
 Proof. exact deepcopy_fresh_disjoint_l. Qed.
-Print Assumptions deepcopy_iso_disjoint_partial.
+Print Assumptions deepcopy_extends_and_fresh.
+
+(* deepcopy_iso_disjoint, part 2: equality of content.  c = sc s' is the correspondence recorded when the
+   copies were allocated (one pair per allocated copy; the interpreter never reads it).
+     - the root corresponds to the returned copy;
+     - for every pair (a, b): a is a source object, b a NEW object of the same class and kind; every entry
+       of b is related (vrel: equal immutable values, recorded copies, or the very same seed / atomic
+       object) to an entry of a, and every entry of a has a related entry with a related value in b:
+       structure, labels, lengths, rooting, taxa, comments, extra attributes, bipartitions, sequences and
+       every Annotation object (name, value, is_attribute, bound-attribute tuple (copy, name)) correspond
+       exactly; list positions are keys, so order is preserved;
+     - no object is the copy of two sources (the relation is injective on objects).
+   EXCEPT (named, not proved for all inputs; checked per case by the correspondence run): the
+   AnnotationSet object that `annotations.add` rebuilds for an annotable copy and its two containers
+   (`rebuilt` / `not_carried`: key "_annotations" of annotable objects, "_item_list"/"_item_set" and
+   non-"target" attributes of annotation sets) - i.e. WHICH annotations the copy's set lists, in which
+   order.  c also is not single-valued on tuples (a re-targeted bound-attribute tuple has two recorded
+   copies, one of them garbage), so "memo is an isomorphism ONTO the copy's reachable set" is not
+   claimed. *)
+Theorem deepcopy_content_bisimulation_partial : forall h seeds root fuel s' y,
+  wf_heap h seeds = true -> wf_heap2 h = true -> memz root (owned_list h) = false ->
+  0 <= root < hlen h -> (length h < fuel)%nat ->
+  run_seeded fuel h seeds root = Ok (s', R y) ->
+  vrel (hlen h) (sc s') (R root) (R y)
+  /\ (forall a b, In (a, b) (sc s') ->
+        0 <= a < hlen h /\ hlen h <= b < hlen (sh s') /\
+        exists oa ob, hget h a = Some oa /\ hget (sh s') b = Some ob /\ ocls oa = ocls ob /\ okind oa = okind ob
+          /\ (forall k' v', In (k', v') (obody ob) ->
+                rebuilt (okind oa) k' \/
+                exists k v, In (k, v) (obody oa) /\ vrel (hlen h) (sc s') k k' /\ vrel (hlen h) (sc s') v v')
+          /\ (forall k v, In (k, v) (obody oa) ->
+                not_carried (okind oa) k \/
+                exists k' v', In (k', v') (obody ob) /\ vrel (hlen h) (sc s') k k' /\ vrel (hlen h) (sc s') v v'))
+  /\ (forall a a' b, In (a, b) (sc s') -> In (a', b) (sc s') -> a = a').
+Proof. exact deepcopy_bisimulation_l. Qed.
+Print Assumptions deepcopy_content_bisimulation_partial.
 
 (* copy.deepcopy / clone(2): whatever both the source and the copy can reach is reachable from an atomic
    object (StateAlphabet / StateIdentity, whose __deepcopy__ returns self): no node, edge, taxon,
@@ -48,7 +80,8 @@ Print Assumptions deep_shares_nothing.
 
 (* taxon-namespace-scoped copy / clone(1) / Tree.__copy__: whatever both sides can reach is reachable
    from the namespace, one of its taxa, or an atomic object.  (Full statement "exactly": every seed the
-   source reaches is also reached by the copy - needs the isomorphism, not proved.) *)
+   source reaches is also reached by the copy - follows from the content theorem only for seeds not
+   reached through annotation sets; not stated.) *)
 Theorem scoped_shares_exactly_namespace_partial : forall h root ns fuel s' y,
   wf_heap h (ns_seeds h ns) = true -> 0 <= root < hlen h -> (length h < fuel)%nat ->
   run fuel h root (RScoped ns) = Ok (s', R y) ->
@@ -90,13 +123,33 @@ Theorem frame_source_side : forall h seeds root fuel s' y news ws,
 Proof. exact frame_source_side_l. Qed.
 Print Assumptions frame_source_side.
 
+(* attribute-bound annotations follow the copy.  Full statement: at the end of the copy, the annotation a2
+   recorded for a member a1 bound to its owner x has the value (y, name) with y a recorded copy of x -
+   this is the instance of deepcopy_content_bisimulation_partial for the pairs (a1, a2) and
+   (a1._value, a2._value).  Stated separately here for the step of the algorithm that establishes it
+   (deep_copy_annotations_from's re-targeting): afterwards a2._value is a NEW tuple (dst, name), nothing
+   else is modified. *)
+Theorem bound_annotations_follow_copy_partial : forall s dst src a1o a2o s' ao t tob name rest,
+  bget (body_of s a2o) NM_ISATTR = Some PTrue ->
+  hget (sh s) a1o = Some ao -> bget (obody ao) NM_VALUE = Some (R t) ->
+  hget (sh s) t = Some tob -> (okind tob = KTuple \/ okind tob = KList) ->
+  values (obody tob) = R src :: name :: rest ->
+  retarget s dst src (R a1o) (R a2o) = Ok s' ->
+  exists tn, hlen (sh s) <= tn
+    /\ bget (body_of s' a2o) NM_VALUE = Some (R tn)
+    /\ body_of s' tn = [(pidx 0, R dst); (pidx 1, name)]
+    /\ (forall o, o <> a2o -> o < hlen (sh s) -> hget (sh s') o = hget (sh s) o).
+Proof. exact retarget_binds_copy_l. Qed.
+Print Assumptions bound_annotations_follow_copy_partial.
+
 (* Not vacuous: a well-formed heap of the library's shape (tree + namespace + taxon + attribute-bound
    annotation) on which both routes run to completion. *)
 Theorem hypotheses_satisfiable :
   wf_heap ex_heap [] = true /\ wf_heap ex_heap (ns_seeds ex_heap 1) = true
+  /\ (wf_heap2 ex_heap = true /\ memz 0 (owned_list ex_heap) = false)
   /\ (exists s y, run 10 ex_heap 0 RDeep = Ok (s, R y) /\ y = 9 /\ hlen (sh s) = 19)
   /\ (exists s y, run 10 ex_heap 0 (RScoped 1) = Ok (s, R y) /\ y = 9 /\ hlen (sh s) = 16).
-Proof. exact (conj ex_wf_deep (conj ex_wf_scoped (conj ex_deep_runs ex_scoped_runs))). Qed.
+Proof. exact (conj ex_wf_deep (conj ex_wf_scoped (conj ex_wf2 (conj ex_deep_runs ex_scoped_runs)))). Qed.
 Print Assumptions hypotheses_satisfiable.
 
 (* "deep copy of a well-formed graph succeeds" is REFUTED on the faithful model, as on the
